@@ -419,3 +419,78 @@ def run_select(req):
 
 HANDLERS = {"knn_arcs": run_arcs, "knn_pdf": run_pdf, "knn_emh": run_emh, "knn_cluster": run_cluster,
             "knn_predict": run_predict, "knn_select": run_select}
+
+
+def run_e2e(req):
+    from opfython.models.knn_supervised import KNNSupervisedOPF
+    from opfython.models.unsupervised import UnsupervisedOPF
+    cfg = req["cfg"]
+    n, nv, model, max_k = cfg["n"], cfg.get("nv", 0), cfg["model"], cfg["max_k"]
+    labels, vlabels = cfg["labels"], cfg.get("vlabels", [])
+    D = [list(map(float, r)) for r in req["D"]]
+    table = lambda a, b: D[int(a[0])][int(b[0])]
+    X = np.array([[float(i)] for i in range(n)])
+    Y = np.array(labels, dtype=int)
+    if model == "knn":
+        opf = KNNSupervisedOPF(max_k=max_k)
+        opf.distance_fn = table
+        Xv = np.array([[float(n + i)] for i in range(nv)])
+        opf.fit(X, Y, Xv, np.array(vlabels, dtype=int))
+    else:
+        opf = UnsupervisedOPF(min_k=1, max_k=max_k)
+        opf.distance_fn = table
+        opf.fit(X, Y)
+        if cfg.get("propagate"):
+            opf.propagate_labels()
+    g = opf.subgraph
+    nodes = g.nodes
+    pred = [int(nd.pred) for nd in nodes]
+    dens = [float(nd.density) for nd in nodes]
+    bad = []
+    roots = []
+    for i in range(n):
+        ch = chain(pred, i, n)
+        if ch is None:
+            bad.append("chain-acyclic[%d]" % i)
+            return dict(obs={}, violated=bad)
+        roots.append(ch[-1])
+        if nodes[i].root != ch[-1]:
+            bad.append("recorded-root-is-chain-root[%d]" % i)
+    k = g.best_k
+    for i in range(n):
+        r = roots[i]
+        if model == "uns":
+            if nodes[i].cluster_label != nodes[r].cluster_label:
+                bad.append("cluster-id-equals-root's[%d]" % i)
+            if cfg.get("propagate") and nodes[i].predicted_label != labels[r]:
+                bad.append("propagated-label-is-root's-true-label[%d]" % i)
+        else:
+            if nodes[i].predicted_label != labels[r]:
+                bad.append("assigned-label-is-root's-true-label[%d]" % i)
+            if nodes[i].predicted_label != labels[i]:
+                bad.append("force-prototype-keeps-own-label[%d]" % i)
+        if pred[i] == NIL:
+            if nodes[i].cost != dens[i]:
+                bad.append("root-cost-is-density[%d]" % i)
+        else:
+            p = pred[i]
+            if model == "uns" and i not in [int(a) for a in nodes[p].adjacency[:nodes[p].n_plateaus + k]]:
+                bad.append("sample-was-neighbour-of-its-predecessor[%d]" % i)
+            if nodes[i].cost != min(nodes[p].cost, dens[i]):
+                bad.append("cost-is-min(cost(pred),density)[%d]" % i)
+            if not nodes[i].cost > dens[i] - 1:
+                bad.append("cost-above-density-minus-1[%d]" % i)
+        if not dens[i] < dens[r] + 1:
+            bad.append("density-below-root's-plus-1[%d]" % i)
+    rootset = sorted(set(roots))
+    if model == "uns":
+        if g.n_clusters != len(rootset):
+            bad.append("n_clusters-is-number-of-roots")
+        if sorted(nodes[r].cluster_label for r in rootset) != list(range(len(rootset))):
+            bad.append("root-ids-are-0..n_clusters-1")
+    obs = dict(pred=pred, root=[_f(nd.root) for nd in nodes], plabel=[_f(nd.predicted_label) for nd in nodes],
+               cluster=[_f(nd.cluster_label) for nd in nodes], best_k=int(k))
+    return dict(obs=obs, violated=bad)
+
+
+HANDLERS["knn_e2e"] = run_e2e
